@@ -75,14 +75,21 @@ def gen_case(seed, tier, index=0):
     git = rng.chance(0.4)
     if git:
         world["git"] = {"commit": True}
-    cwd = rng.wpick([(5, "."), (2, "src"), (2, "LICENSES")])
+    cwd = rng.wpick([(5, "."), (2, "src"), (2, "LICENSES"), (2, "vendor/lib/LICENSES")])
+    if cwd == "vendor/lib/LICENSES":
+        # a nested directory that merely happens to be called LICENSES
+        world.setdefault("dirs", []).append("vendor/lib/LICENSES")
+        files.append({"path": "vendor/lib/readme.py", "content": "# SPDX-FileCopyrightText: 2020 J\n# SPDX-License-Identifier: CC0-1.0\n"})
     if cwd == "LICENSES" and lic_state == "absent":
         cwd = "."
     have_src = any(f["path"].startswith("src/") for f in files)
     if cwd == "src" and not have_src:
         cwd = "."
     root_opt = []
-    if cwd != "." and (not git or rng.chance(0.3)):
+    if cwd == "vendor/lib/LICENSES":
+        if not git or rng.chance(0.5):
+            root_opt = ["--root", "../../.."]
+    elif cwd != "." and (not git or rng.chance(0.3)):
         if rng.chance(0.7):
             root_opt = ["--root", ".."]
 
@@ -111,7 +118,7 @@ def gen_case(seed, tier, index=0):
             argv = root_opt + ["download"] + ids
             if any(i.startswith("LicenseRef-") for i in ids) and rng.chance(0.6):
                 src = rng.pick(["srclic", "srclic/LicenseRef-Custom.txt", "src"])
-                up = "" if (cwd == "." ) else "../"
+                up = "" if (cwd == ".") else "../" * (cwd.count("/") + 1)
                 argv = root_opt + ["download", "--source", up + src] + ids
             st = {"argv": argv, "cwd": cwd, "net": net_for(ids), "pool": pool, "readdir_key": rng.randrange(1 << 30)}
             steps.append(st)
@@ -124,7 +131,7 @@ def gen_case(seed, tier, index=0):
         elif k == "out":
             i = rng.pick(IDS + G.LICENSEREF)
             out = rng.pick(["custom-name.txt", "LICENSES/Other-Name.txt", "newdir/x.txt", "deep/er/x.txt", "src/keep.py", "srclic/out.txt"])
-            up = "" if cwd == "." else "../"
+            up = "" if cwd == "." else "../" * (cwd.count("/") + 1)
             steps.append({"argv": root_opt + ["download", "-o", up + out, i], "cwd": cwd, "net": net_for([i]), "pool": pool})
         elif k == "repeat" and earlier:
             st = dict(rng.pick(earlier))
